@@ -25,7 +25,6 @@ def usagePoolClients : List (String × String × String × String × List String
   ("modules/caddyhttp/reverseproxy/hosts.go", "Upstream.fillHost", "hosts", "LoadOrStore", []),
   ("modules/caddyhttp/reverseproxy/reverseproxy.go", "Handler.Cleanup", "hosts", "Delete", ["upstream.Host==nil => continue"]),
   ("modules/caddyhttp/reverseproxy/reverseproxy.go", "Handler.proxyLoopIteration", "hosts", "Delete", ["if h.DynamicUpstreams!=nil", "else err!=nil", "defer", "func"]),
-  ("modules/caddyhttp/reverseproxy/reverseproxy.go", "Handler.proxyLoopIteration", "hosts", "Delete", ["if resolved!=nil", "defer", "func", "if upstream!=configured[i]"]),
   ("modules/caddypki/acmeserver/acmeserver.go", "Handler.Cleanup", "databasePool", "Delete", ["!ash.databaseOpened => return"]),
   ("modules/caddypki/acmeserver/acmeserver.go", "Handler.openDatabase", "databasePool", "LoadOrNew", []),
   ("modules/caddytls/connpolicy.go", "ConnectionPolicy.buildStandardTLSConfig", "secretsLogPool", "LoadOrNew", ["err!=nil => return", "(p.ProtocolMin!=\"\"&&p.ProtocolMax!=\"\")&&p.ProtocolMin>p.ProtocolMax => return", "if p.InsecureSecretsLog!=\"\"", "err!=nil => return", "err!=nil => return"]),
